@@ -218,4 +218,896 @@ theorem ushiftS_solved (f c a : Nat) (t z : Tm) (s : St) (hz : Zk s.store t z)
   refine DetAt.bind h1 ?_
   exact DetAt.pure _
 
+/-! ## `openS` -/
+
+set_option hygiene false in
+local macro "op_step" : tactic => `(tactic| first
+  | with_reducible exact DetAt.pure _
+  | with_reducible refine DetAt.bind (ih1 _ _ _ _ _ _ _ (by assumption) (by hf_side) hzu hfu) ?_
+  | with_reducible refine DetAt.bind (ih2 _ _ _ _ _ _ _ (by assumption) (by hf_side) hzu hfu) ?_)
+
+theorem openS_solved : ∀ f,
+    (∀ t i u sh zt zu s, Zk s.store t zt → zt.holeFree = true → Zk s.store u zu →
+      zu.holeFree = true → DetAt s (openS f t i u sh) (openT zt i zu sh)) ∧
+    (∀ ds i u sh zs zu s, ZkD s.store ds zs → zs.holeFree = true → Zk s.store u zu →
+      zu.holeFree = true → DetAt s (openDefsS f ds i u sh) (openDefs zs i zu sh)) := by
+  intro f
+  induction f with
+  | zero =>
+    constructor
+    · intros; rw [openS]; exact DetAt.outOfFuel
+    · intros; rw [openDefsS]; exact DetAt.outOfFuel
+  | succ f ih =>
+    obtain ⟨ih1, ih2⟩ := ih
+    constructor
+    · intro t i u sh z zu s hz hf hzu hfu
+      cases t
+      case hole id k =>
+        unfold openS
+        dsimp only
+        refine DetAt.cellGet ?_
+        cases hv : cellVal s.store id with
+        | none =>
+          have hn : ∀ sub, s.store[id]? ≠ some (some sub) := by
+            intro sub hs
+            rw [← cellVal_some, hv] at hs
+            cases hs
+          rw [Zk_hole_none hn] at hz
+          subst hz
+          cases hf
+        | some sub =>
+          dsimp only
+          have hsub : s.store[id]? = some (some sub) := cellVal_some.1 hv
+          rw [Zk_hole_some hsub] at hz
+          obtain ⟨zs, hzs, rfl⟩ := hz
+          have hf' := hf
+          rw [ushift_holeFree] at hf'
+          refine DetAt.bind (ushiftS_solved f 0 k sub zs s hzs hf') ?_
+          exact ih1 _ i u sh _ zu s (Zk_holeFree _ hf) hf hzu hfu
+      case var x j =>
+        rw [Zk_leaf (by simp [Leaf])] at hz; subst hz
+        unfold openS openT; dsimp only
+        split
+        · exact ushiftS_solved f 0 sh u zu s hzu hfu
+        · split <;> exact DetAt.pure _
+      case lam x im d b =>
+        rw [Zk_lam] at hz
+        obtain ⟨zd, zb, hzd, hzb, rfl⟩ := hz
+        simp only [Tm.holeFree, Bool.and_eq_true] at hf
+        unfold openS openT; dsimp only
+        repeat op_step
+      case pi x im d b =>
+        rw [Zk_pi] at hz
+        obtain ⟨zd, zb, hzd, hzb, rfl⟩ := hz
+        simp only [Tm.holeFree, Bool.and_eq_true] at hf
+        unfold openS openT; dsimp only
+        repeat op_step
+      case app g a =>
+        rw [Zk_app] at hz
+        obtain ⟨zd, zb, hzd, hzb, rfl⟩ := hz
+        simp only [Tm.holeFree, Bool.and_eq_true] at hf
+        unfold openS openT; dsimp only
+        repeat op_step
+      case letg ds b =>
+        rw [Zk_letg] at hz
+        obtain ⟨zd, zb, hzd, hzb, rfl⟩ := hz
+        simp only [Tm.holeFree, Bool.and_eq_true] at hf
+        unfold openS openT; dsimp only
+        rw [ZkD_len hzd]
+        repeat op_step
+      case neg a =>
+        rw [Zk_neg] at hz
+        obtain ⟨zd, hzd, rfl⟩ := hz
+        simp only [Tm.holeFree] at hf
+        unfold openS openT; dsimp only
+        repeat op_step
+      case bin op a b =>
+        rw [Zk_bin] at hz
+        obtain ⟨zd, zb, hzd, hzb, rfl⟩ := hz
+        simp only [Tm.holeFree, Bool.and_eq_true] at hf
+        unfold openS openT; dsimp only
+        repeat op_step
+      case ite a b d =>
+        rw [Zk_ite] at hz
+        obtain ⟨za, zb, zd, hza, hzb, hzd, rfl⟩ := hz
+        simp only [Tm.holeFree, Bool.and_eq_true] at hf
+        unfold openS openT; dsimp only
+        repeat op_step
+      all_goals
+        rw [Zk_leaf (by simp [Leaf])] at hz; subst hz
+        unfold openS openT; dsimp only
+        exact DetAt.pure _
+    · intro ds i u sh zs zu s hz hf hzu hfu
+      cases ds
+      case nil =>
+        rw [ZkD_nil] at hz; subst hz
+        unfold openDefsS openDefs; dsimp only
+        exact DetAt.pure _
+      case cons x a d r =>
+        rw [ZkD_cons] at hz
+        obtain ⟨za, zd, zr, hza, hzd, hzr, rfl⟩ := hz
+        simp only [Defs.holeFree, Bool.and_eq_true] at hf
+        unfold openDefsS openDefs; dsimp only
+        repeat op_step
+
+theorem openS_transparent {f i sh : Nat} {t u zt zu r : Tm} {s s' : St}
+    (hz : Zk s.store t zt) (hf : zt.holeFree = true) (hzu : Zk s.store u zu)
+    (hfu : zu.holeFree = true) (h : openS f t i u sh s = .ok r s') :
+    r = openT zt i zu sh ∧ s' = s :=
+  (openS_solved f).1 t i u sh zt zu s hz hf hzu hfu r s' h
+
+/-! ## `freeAtS` (the printer's dependent / non-dependent test) -/
+
+theorem orO_some {a b : Option Bool} {r : Bool} (h : orO a b = some r) :
+    ∃ x y, a = some x ∧ b = some y ∧ r = (x || y) := by
+  cases a <;> cases b <;> simp [orO] at h
+  exact ⟨_, _, rfl, rfl, h.symm⟩
+
+theorem freeAtS_solved : ∀ f,
+    (∀ σ t z i b, Zk σ t z → z.holeFree = true → freeAtS f σ t i = some b → b = freeAt z i) ∧
+    (∀ σ ds zs i b, ZkD σ ds zs → zs.holeFree = true → freeAtDefsS f σ ds i = some b →
+      b = freeAtDefs zs i) := by
+  intro f
+  induction f with
+  | zero =>
+    constructor
+    · intro σ t z i b _ _ h; simp [freeAtS] at h
+    · intro σ t z i b _ _ h; simp [freeAtDefsS] at h
+  | succ f ih =>
+    obtain ⟨ih1, ih2⟩ := ih
+    constructor
+    · intro σ t z i b hz hf h
+      cases t
+      case hole id k =>
+        unfold freeAtS at h
+        dsimp only at h
+        split at h
+        · next sub hsub =>
+          rw [Zk_hole_some hsub] at hz
+          obtain ⟨zs, hzs, rfl⟩ := hz
+          have hf' := hf
+          rw [ushift_holeFree] at hf'
+          split at h
+          · next sub' s1 hs =>
+            have h1 := sshiftS_transparent (s := { store := σ }) hzs hf' hs
+            rw [sshift_ushift] at h1
+            obtain ⟨h1, _⟩ := h1
+            cases h1
+            exact ih1 σ _ _ i b (Zk_holeFree _ hf) hf h
+          · cases h
+        · next hn =>
+          have hn' : ∀ sub, σ[id]? ≠ some (some sub) := fun sub hs => hn sub hs
+          rw [Zk_hole_none hn'] at hz
+          subst hz
+          cases hf
+      case var x j =>
+        rw [Zk_leaf (by simp [Leaf])] at hz; subst hz
+        simp only [freeAtS, Option.some.injEq] at h
+        simp only [freeAt, h]
+      case lam x im d c =>
+        rw [Zk_lam] at hz
+        obtain ⟨zd, zb, hzd, hzb, rfl⟩ := hz
+        simp only [Tm.holeFree, Bool.and_eq_true] at hf
+        unfold freeAtS at h; dsimp only at h
+        obtain ⟨x1, x2, e1, e2, rfl⟩ := orO_some h
+        simp only [freeAt, ih1 _ _ _ _ _ hzd hf.1 e1, ih1 _ _ _ _ _ hzb hf.2 e2]
+      case pi x im d c =>
+        rw [Zk_pi] at hz
+        obtain ⟨zd, zb, hzd, hzb, rfl⟩ := hz
+        simp only [Tm.holeFree, Bool.and_eq_true] at hf
+        unfold freeAtS at h; dsimp only at h
+        obtain ⟨x1, x2, e1, e2, rfl⟩ := orO_some h
+        simp only [freeAt, ih1 _ _ _ _ _ hzd hf.1 e1, ih1 _ _ _ _ _ hzb hf.2 e2]
+      case app g a =>
+        rw [Zk_app] at hz
+        obtain ⟨zd, zb, hzd, hzb, rfl⟩ := hz
+        simp only [Tm.holeFree, Bool.and_eq_true] at hf
+        unfold freeAtS at h; dsimp only at h
+        obtain ⟨x1, x2, e1, e2, rfl⟩ := orO_some h
+        simp only [freeAt, ih1 _ _ _ _ _ hzd hf.1 e1, ih1 _ _ _ _ _ hzb hf.2 e2]
+      case letg ds c =>
+        rw [Zk_letg] at hz
+        obtain ⟨zd, zb, hzd, hzb, rfl⟩ := hz
+        simp only [Tm.holeFree, Bool.and_eq_true] at hf
+        unfold freeAtS at h; dsimp only at h
+        obtain ⟨x1, x2, e1, e2, rfl⟩ := orO_some h
+        simp only [freeAt, ZkD_len hzd, ih2 _ _ _ _ _ hzd hf.1 e1, ih1 _ _ _ _ _ hzb hf.2 e2]
+      case neg a =>
+        rw [Zk_neg] at hz
+        obtain ⟨zd, hzd, rfl⟩ := hz
+        simp only [Tm.holeFree] at hf
+        unfold freeAtS at h; dsimp only at h
+        simp only [freeAt, ih1 _ _ _ _ _ hzd hf h]
+      case bin op g a =>
+        rw [Zk_bin] at hz
+        obtain ⟨zd, zb, hzd, hzb, rfl⟩ := hz
+        simp only [Tm.holeFree, Bool.and_eq_true] at hf
+        unfold freeAtS at h; dsimp only at h
+        obtain ⟨x1, x2, e1, e2, rfl⟩ := orO_some h
+        simp only [freeAt, ih1 _ _ _ _ _ hzd hf.1 e1, ih1 _ _ _ _ _ hzb hf.2 e2]
+      case ite a c d =>
+        rw [Zk_ite] at hz
+        obtain ⟨za, zb, zd, hza, hzb, hzd, rfl⟩ := hz
+        simp only [Tm.holeFree, Bool.and_eq_true] at hf
+        unfold freeAtS at h; dsimp only at h
+        obtain ⟨x12, x3, e12, e3, rfl⟩ := orO_some h
+        obtain ⟨x1, x2, e1, e2, rfl⟩ := orO_some e12
+        simp only [freeAt, ih1 _ _ _ _ _ hza hf.1.1 e1, ih1 _ _ _ _ _ hzb hf.1.2 e2,
+          ih1 _ _ _ _ _ hzd hf.2 e3]
+      all_goals
+        rw [Zk_leaf (by simp [Leaf])] at hz; subst hz
+        simp only [freeAtS, Option.some.injEq] at h
+        simp only [freeAt, h]
+    · intro σ ds zs i b hz hf h
+      cases ds
+      case nil =>
+        rw [ZkD_nil] at hz; subst hz
+        simp only [freeAtDefsS, Option.some.injEq] at h
+        simp only [freeAtDefs, h]
+      case cons x a d r =>
+        rw [ZkD_cons] at hz
+        obtain ⟨za, zd, zr, hza, hzd, hzr, rfl⟩ := hz
+        simp only [Defs.holeFree, Bool.and_eq_true] at hf
+        unfold freeAtDefsS at h; dsimp only at h
+        obtain ⟨x12, x3, e12, e3, rfl⟩ := orO_some h
+        obtain ⟨x1, x2, e1, e2, rfl⟩ := orO_some e12
+        simp only [freeAtDefs, ih1 _ _ _ _ _ hza hf.1.1 e1, ih1 _ _ _ _ _ hzd hf.1.2 e2,
+          ih2 _ _ _ _ _ hzr hf.2 e3]
+
+theorem freeAtS_transparent {f i : Nat} {σ : List (Option Tm)} {t z : Tm} {b : Bool}
+    (hz : Zk σ t z) (hf : z.holeFree = true) (h : freeAtS f σ t i = some b) : b = freeAt z i :=
+  (freeAtS_solved f).1 σ t z i b hz hf h
+
+/-! ## `free_variables` with a cutoff, store-aware
+
+`Print.lean` models the only use of `free_variables` on elaborated terms (`contains(&0)` at some
+index, `freeAtS`).  `freeVarsS` is the whole function of `term.rs`, `Unifier` arm included: a solved
+cell is shifted by its shift and traversed, an unsolved one contributes nothing. -/
+
+def appO : Option (List Nat) → Option (List Nat) → Option (List Nat)
+  | some a, some b => some (a ++ b)
+  | _, _ => none
+
+mutual
+def freeVarsS : Nat → List (Option Tm) → Tm → Nat → Option (List Nat)
+  | 0, _, _, _ => none
+  | f+1, σ, t, c =>
+    match t with
+    | .hole id s =>
+        match σ[id]? with
+        | some (some sub) =>
+            match sshiftS f 0 (s : Int) sub { store := σ } with
+            | .ok (some sub') _ => freeVarsS f σ sub' c
+            | _ => none
+        | _ => some []
+    | .var _ i => some (if i ≥ c then [i - c] else [])
+    | .lam _ _ d b => appO (freeVarsS f σ d c) (freeVarsS f σ b (c+1))
+    | .pi _ _ d b => appO (freeVarsS f σ d c) (freeVarsS f σ b (c+1))
+    | .app g a => appO (freeVarsS f σ g c) (freeVarsS f σ a c)
+    | .letg ds b => appO (freeVarsDefsS f σ ds (c + ds.len)) (freeVarsS f σ b (c + ds.len))
+    | .neg a => freeVarsS f σ a c
+    | .bin _ a b => appO (freeVarsS f σ a c) (freeVarsS f σ b c)
+    | .ite a b d => appO (appO (freeVarsS f σ a c) (freeVarsS f σ b c)) (freeVarsS f σ d c)
+    | _ => some []
+def freeVarsDefsS : Nat → List (Option Tm) → Defs → Nat → Option (List Nat)
+  | 0, _, _, _ => none
+  | f+1, σ, ds, c =>
+    match ds with
+    | .nil => some []
+    | .cons _ a d r => appO (appO (freeVarsS f σ a c) (freeVarsS f σ d c)) (freeVarsDefsS f σ r c)
+end
+
+theorem appO_some {a b : Option (List Nat)} {r : List Nat} (h : appO a b = some r) :
+    ∃ x y, a = some x ∧ b = some y ∧ r = x ++ y := by
+  cases a <;> cases b <;> simp [appO] at h
+  exact ⟨_, _, rfl, rfl, h.symm⟩
+
+theorem freeVarsS_solved : ∀ f,
+    (∀ σ t z c l, Zk σ t z → z.holeFree = true → freeVarsS f σ t c = some l → l = freeVars z c) ∧
+    (∀ σ ds zs c l, ZkD σ ds zs → zs.holeFree = true → freeVarsDefsS f σ ds c = some l →
+      l = freeVarsDefs zs c) := by
+  intro f
+  induction f with
+  | zero =>
+    constructor
+    · intro σ t z i b _ _ h; simp [freeVarsS] at h
+    · intro σ t z i b _ _ h; simp [freeVarsDefsS] at h
+  | succ f ih =>
+    obtain ⟨ih1, ih2⟩ := ih
+    constructor
+    · intro σ t z i b hz hf h
+      cases t
+      case hole id k =>
+        unfold freeVarsS at h
+        dsimp only at h
+        split at h
+        · next sub hsub =>
+          rw [Zk_hole_some hsub] at hz
+          obtain ⟨zs, hzs, rfl⟩ := hz
+          have hf' := hf
+          rw [ushift_holeFree] at hf'
+          split at h
+          · next sub' s1 hs =>
+            have h1 := sshiftS_transparent (s := { store := σ }) hzs hf' hs
+            rw [sshift_ushift] at h1
+            obtain ⟨h1, _⟩ := h1
+            cases h1
+            exact ih1 σ _ _ i b (Zk_holeFree _ hf) hf h
+          · cases h
+        · next hn =>
+          have hn' : ∀ sub, σ[id]? ≠ some (some sub) := fun sub hs => hn sub hs
+          rw [Zk_hole_none hn'] at hz
+          subst hz
+          cases hf
+      case var x j =>
+        rw [Zk_leaf (by simp [Leaf])] at hz; subst hz
+        simp only [freeVarsS, Option.some.injEq] at h
+        simp only [freeVars, h]
+      case lam x im d c =>
+        rw [Zk_lam] at hz
+        obtain ⟨zd, zb, hzd, hzb, rfl⟩ := hz
+        simp only [Tm.holeFree, Bool.and_eq_true] at hf
+        unfold freeVarsS at h; dsimp only at h
+        obtain ⟨x1, x2, e1, e2, rfl⟩ := appO_some h
+        simp only [freeVars, ih1 _ _ _ _ _ hzd hf.1 e1, ih1 _ _ _ _ _ hzb hf.2 e2]
+      case pi x im d c =>
+        rw [Zk_pi] at hz
+        obtain ⟨zd, zb, hzd, hzb, rfl⟩ := hz
+        simp only [Tm.holeFree, Bool.and_eq_true] at hf
+        unfold freeVarsS at h; dsimp only at h
+        obtain ⟨x1, x2, e1, e2, rfl⟩ := appO_some h
+        simp only [freeVars, ih1 _ _ _ _ _ hzd hf.1 e1, ih1 _ _ _ _ _ hzb hf.2 e2]
+      case app g a =>
+        rw [Zk_app] at hz
+        obtain ⟨zd, zb, hzd, hzb, rfl⟩ := hz
+        simp only [Tm.holeFree, Bool.and_eq_true] at hf
+        unfold freeVarsS at h; dsimp only at h
+        obtain ⟨x1, x2, e1, e2, rfl⟩ := appO_some h
+        simp only [freeVars, ih1 _ _ _ _ _ hzd hf.1 e1, ih1 _ _ _ _ _ hzb hf.2 e2]
+      case letg ds c =>
+        rw [Zk_letg] at hz
+        obtain ⟨zd, zb, hzd, hzb, rfl⟩ := hz
+        simp only [Tm.holeFree, Bool.and_eq_true] at hf
+        unfold freeVarsS at h; dsimp only at h
+        obtain ⟨x1, x2, e1, e2, rfl⟩ := appO_some h
+        simp only [freeVars, ZkD_len hzd, ih2 _ _ _ _ _ hzd hf.1 e1, ih1 _ _ _ _ _ hzb hf.2 e2]
+      case neg a =>
+        rw [Zk_neg] at hz
+        obtain ⟨zd, hzd, rfl⟩ := hz
+        simp only [Tm.holeFree] at hf
+        unfold freeVarsS at h; dsimp only at h
+        simp only [freeVars, ih1 _ _ _ _ _ hzd hf h]
+      case bin op g a =>
+        rw [Zk_bin] at hz
+        obtain ⟨zd, zb, hzd, hzb, rfl⟩ := hz
+        simp only [Tm.holeFree, Bool.and_eq_true] at hf
+        unfold freeVarsS at h; dsimp only at h
+        obtain ⟨x1, x2, e1, e2, rfl⟩ := appO_some h
+        simp only [freeVars, ih1 _ _ _ _ _ hzd hf.1 e1, ih1 _ _ _ _ _ hzb hf.2 e2]
+      case ite a c d =>
+        rw [Zk_ite] at hz
+        obtain ⟨za, zb, zd, hza, hzb, hzd, rfl⟩ := hz
+        simp only [Tm.holeFree, Bool.and_eq_true] at hf
+        unfold freeVarsS at h; dsimp only at h
+        obtain ⟨x12, x3, e12, e3, rfl⟩ := appO_some h
+        obtain ⟨x1, x2, e1, e2, rfl⟩ := appO_some e12
+        simp only [freeVars, ih1 _ _ _ _ _ hza hf.1.1 e1, ih1 _ _ _ _ _ hzb hf.1.2 e2,
+          ih1 _ _ _ _ _ hzd hf.2 e3]
+      all_goals
+        rw [Zk_leaf (by simp [Leaf])] at hz; subst hz
+        simp only [freeVarsS, Option.some.injEq] at h
+        simp only [freeVars, h]
+    · intro σ ds zs i b hz hf h
+      cases ds
+      case nil =>
+        rw [ZkD_nil] at hz; subst hz
+        simp only [freeVarsDefsS, Option.some.injEq] at h
+        simp only [freeVarsDefs, h]
+      case cons x a d r =>
+        rw [ZkD_cons] at hz
+        obtain ⟨za, zd, zr, hza, hzd, hzr, rfl⟩ := hz
+        simp only [Defs.holeFree, Bool.and_eq_true] at hf
+        unfold freeVarsDefsS at h; dsimp only at h
+        obtain ⟨x12, x3, e12, e3, rfl⟩ := appO_some h
+        obtain ⟨x1, x2, e1, e2, rfl⟩ := appO_some e12
+        simp only [freeVarsDefs, ih1 _ _ _ _ _ hza hf.1.1 e1, ih1 _ _ _ _ _ hzd hf.1.2 e2,
+          ih2 _ _ _ _ _ hzr hf.2 e3]
+
+theorem freeVarsS_transparent {f c : Nat} {σ : List (Option Tm)} {t z : Tm} {l : List Nat}
+    (hz : Zk σ t z) (hf : z.holeFree = true) (h : freeVarsS f σ t c = some l) : l = freeVars z c :=
+  (freeVarsS_solved f).1 σ t z c l hz hf h
+
+/-! ## `sshift` keeps hole-freeness -/
+
+mutual
+theorem sshift_hf : ∀ (t : Tm) (c : Nat) (amt : Int) (r : Tm), sshift c amt t = some r →
+    r.holeFree = t.holeFree
+  | .var x i, c, amt, r, h => by
+      simp only [sshift] at h
+      split at h
+      · split at h
+        · cases h; rfl
+        · cases h
+      · cases h; rfl
+  | .hole x i, c, amt, r, h => by
+      simp only [sshift] at h
+      split at h
+      · split at h
+        · cases h; rfl
+        · cases h
+      · cases h; rfl
+  | .lam x im d b, c, amt, r, h => by
+      simp only [sshift] at h
+      cases h1 : sshift c amt d with
+      | none => simp [h1] at h
+      | some d' =>
+        cases h2 : sshift (c+1) amt b with
+        | none => simp [h1, h2] at h
+        | some b' =>
+          simp only [h1, h2, Option.some.injEq] at h; subst h
+          simp only [Tm.holeFree, sshift_hf d _ _ _ h1, sshift_hf b _ _ _ h2]
+  | .pi x im d b, c, amt, r, h => by
+      simp only [sshift] at h
+      cases h1 : sshift c amt d with
+      | none => simp [h1] at h
+      | some d' =>
+        cases h2 : sshift (c+1) amt b with
+        | none => simp [h1, h2] at h
+        | some b' =>
+          simp only [h1, h2, Option.some.injEq] at h; subst h
+          simp only [Tm.holeFree, sshift_hf d _ _ _ h1, sshift_hf b _ _ _ h2]
+  | .app d b, c, amt, r, h => by
+      simp only [sshift] at h
+      cases h1 : sshift c amt d with
+      | none => simp [h1] at h
+      | some d' =>
+        cases h2 : sshift c amt b with
+        | none => simp [h1, h2] at h
+        | some b' =>
+          simp only [h1, h2, Option.some.injEq] at h; subst h
+          simp only [Tm.holeFree, sshift_hf d _ _ _ h1, sshift_hf b _ _ _ h2]
+  | .bin op d b, c, amt, r, h => by
+      simp only [sshift] at h
+      cases h1 : sshift c amt d with
+      | none => simp [h1] at h
+      | some d' =>
+        cases h2 : sshift c amt b with
+        | none => simp [h1, h2] at h
+        | some b' =>
+          simp only [h1, h2, Option.some.injEq] at h; subst h
+          simp only [Tm.holeFree, sshift_hf d _ _ _ h1, sshift_hf b _ _ _ h2]
+  | .letg ds b, c, amt, r, h => by
+      simp only [sshift] at h
+      cases h1 : sshiftDefs (c + ds.len) amt ds with
+      | none => simp [h1] at h
+      | some d' =>
+        cases h2 : sshift (c + ds.len) amt b with
+        | none => simp [h1, h2] at h
+        | some b' =>
+          simp only [h1, h2, Option.some.injEq] at h; subst h
+          simp only [Tm.holeFree, sshiftDefs_hf ds _ _ _ h1, sshift_hf b _ _ _ h2]
+  | .neg d, c, amt, r, h => by
+      simp only [sshift] at h
+      cases h1 : sshift c amt d with
+      | none => simp [h1] at h
+      | some d' =>
+        simp only [h1, Option.some.injEq] at h; subst h
+        simp only [Tm.holeFree, sshift_hf d _ _ _ h1]
+  | .ite a d b, c, amt, r, h => by
+      simp only [sshift] at h
+      cases h0 : sshift c amt a with
+      | none => simp [h0] at h
+      | some a' =>
+        cases h1 : sshift c amt d with
+        | none => simp [h0, h1] at h
+        | some d' =>
+          cases h2 : sshift c amt b with
+          | none => simp [h0, h1, h2] at h
+          | some b' =>
+            simp only [h0, h1, h2, Option.some.injEq] at h; subst h
+            simp only [Tm.holeFree, sshift_hf a _ _ _ h0, sshift_hf d _ _ _ h1, sshift_hf b _ _ _ h2]
+  | .type, _, _, r, h | .int, _, _, r, h | .bool, _, _, r, h | .tt, _, _, r, h | .ff, _, _, r, h
+  | .lit _, _, _, r, h => by simp only [sshift, Option.some.injEq] at h; subst h; rfl
+theorem sshiftDefs_hf : ∀ (ds : Defs) (c : Nat) (amt : Int) (r : Defs), sshiftDefs c amt ds = some r →
+    r.holeFree = ds.holeFree
+  | .nil, _, _, r, h => by simp only [sshiftDefs, Option.some.injEq] at h; subst h; rfl
+  | .cons x a d b, c, amt, r, h => by
+      simp only [sshiftDefs] at h
+      cases h0 : sshift c amt a with
+      | none => simp [h0] at h
+      | some a' =>
+        cases h1 : sshift c amt d with
+        | none => simp [h0, h1] at h
+        | some d' =>
+          cases h2 : sshiftDefs c amt b with
+          | none => simp [h0, h1, h2] at h
+          | some b' =>
+            simp only [h0, h1, h2, Option.some.injEq] at h; subst h
+            simp only [Defs.holeFree, sshift_hf a _ _ _ h0, sshift_hf d _ _ _ h1,
+              sshiftDefs_hf b _ _ _ h2]
+end
+
+/-! ## Totality: with enough fuel the store-aware shift answers on a fully solved term -/
+
+theorem bind_run {α β} (m : M α) (k : α → M β) (s : St) :
+    (m >>= k) s = match m s with | .ok a s' => k a s' | .fuel => .fuel | .panic p => .panic p := rfl
+theorem pure_run {α} (a : α) (s : St) : (pure a : M α) s = .ok a s := rfl
+
+mutual
+theorem ushift_size : ∀ (t : Tm) (c a : Nat), (ushift c a t).size = t.size
+  | .var x i, c, a => by simp only [ushift]; split <;> rfl
+  | .hole id s, c, a => by simp only [ushift]; split <;> rfl
+  | .lam x im d b, c, a => by simp only [ushift, Tm.size, ushift_size d, ushift_size b]
+  | .pi x im d b, c, a => by simp only [ushift, Tm.size, ushift_size d, ushift_size b]
+  | .app f g, c, a => by simp only [ushift, Tm.size, ushift_size f, ushift_size g]
+  | .letg ds b, c, a => by simp only [ushift, Tm.size, ushiftDefs_size ds, ushift_size b]
+  | .neg t, c, a => by simp only [ushift, Tm.size, ushift_size t]
+  | .bin op t u, c, a => by simp only [ushift, Tm.size, ushift_size t, ushift_size u]
+  | .ite t u v, c, a => by simp only [ushift, Tm.size, ushift_size t, ushift_size u, ushift_size v]
+  | .type, _, _ | .int, _, _ | .bool, _, _ | .tt, _, _ | .ff, _, _ | .lit _, _, _ => by
+      simp only [ushift]
+theorem ushiftDefs_size : ∀ (ds : Defs) (c a : Nat), (ushiftDefs c a ds).size = ds.size
+  | .nil, _, _ => by simp only [ushiftDefs]
+  | .cons x t u r, c, a => by
+      simp only [ushiftDefs, Defs.size, ushift_size t, ushift_size u, ushiftDefs_size r]
+end
+
+mutual
+theorem sshiftS_hf_ok : ∀ (t : Tm) (f c : Nat) (amt : Int) (s : St), t.holeFree = true → t.size < f →
+    sshiftS f c amt t s = .ok (sshift c amt t) s
+  | _, 0, _, _, _, _, hs => by omega
+  | .hole _ _, _+1, _, _, _, h, _ => by cases h
+  | .type, _+1, _, _, _, _, _ | .int, _+1, _, _, _, _, _ | .bool, _+1, _, _, _, _, _
+  | .tt, _+1, _, _, _, _, _ | .ff, _+1, _, _, _, _, _ | .lit _, _+1, _, _, _, _, _ => by
+      simp only [sshiftS, sshift, pure_run]
+  | .var x i, _+1, c, amt, s, _, _ => by
+      simp only [sshiftS, sshift]
+      repeat' split
+      all_goals rfl
+  | .lam x im d b, f+1, c, amt, s, h, hs => by
+      simp only [Tm.holeFree, Bool.and_eq_true] at h
+      simp only [Tm.size] at hs
+      have h1 := sshiftS_hf_ok d f c amt s h.1 (by omega)
+      have h2 := sshiftS_hf_ok b f (c+1) amt s h.2 (by omega)
+      simp only [sshiftS, sshift, bind_run, h1]
+      cases sshift c amt d with
+      | none => rfl
+      | some d' =>
+        simp only [bind_run, h2]
+        cases sshift (c+1) amt b <;> rfl
+  | .pi x im d b, f+1, c, amt, s, h, hs => by
+      simp only [Tm.holeFree, Bool.and_eq_true] at h
+      simp only [Tm.size] at hs
+      have h1 := sshiftS_hf_ok d f c amt s h.1 (by omega)
+      have h2 := sshiftS_hf_ok b f (c+1) amt s h.2 (by omega)
+      simp only [sshiftS, sshift, bind_run, h1]
+      cases sshift c amt d with
+      | none => rfl
+      | some d' =>
+        simp only [bind_run, h2]
+        cases sshift (c+1) amt b <;> rfl
+  | .app d b, f+1, c, amt, s, h, hs => by
+      simp only [Tm.holeFree, Bool.and_eq_true] at h
+      simp only [Tm.size] at hs
+      have h1 := sshiftS_hf_ok d f c amt s h.1 (by omega)
+      have h2 := sshiftS_hf_ok b f c amt s h.2 (by omega)
+      simp only [sshiftS, sshift, bind_run, h1]
+      cases sshift c amt d with
+      | none => rfl
+      | some d' =>
+        simp only [bind_run, h2]
+        cases sshift c amt b <;> rfl
+  | .bin op d b, f+1, c, amt, s, h, hs => by
+      simp only [Tm.holeFree, Bool.and_eq_true] at h
+      simp only [Tm.size] at hs
+      have h1 := sshiftS_hf_ok d f c amt s h.1 (by omega)
+      have h2 := sshiftS_hf_ok b f c amt s h.2 (by omega)
+      simp only [sshiftS, sshift, bind_run, h1]
+      cases sshift c amt d with
+      | none => rfl
+      | some d' =>
+        simp only [bind_run, h2]
+        cases sshift c amt b <;> rfl
+  | .letg ds b, f+1, c, amt, s, h, hs => by
+      simp only [Tm.holeFree, Bool.and_eq_true] at h
+      simp only [Tm.size] at hs
+      have h1 := sshiftDefsS_hf_ok ds f (c + ds.len) amt s h.1 (by omega)
+      have h2 := sshiftS_hf_ok b f (c + ds.len) amt s h.2 (by omega)
+      simp only [sshiftS, sshift, bind_run, h1]
+      cases sshiftDefs (c + ds.len) amt ds with
+      | none => rfl
+      | some d' =>
+        simp only [bind_run, h2]
+        cases sshift (c + ds.len) amt b <;> rfl
+  | .neg d, f+1, c, amt, s, h, hs => by
+      simp only [Tm.holeFree] at h
+      simp only [Tm.size] at hs
+      have h1 := sshiftS_hf_ok d f c amt s h (by omega)
+      simp only [sshiftS, sshift, bind_run, h1]
+      cases sshift c amt d <;> rfl
+  | .ite a d b, f+1, c, amt, s, h, hs => by
+      simp only [Tm.holeFree, Bool.and_eq_true] at h
+      simp only [Tm.size] at hs
+      have h0 := sshiftS_hf_ok a f c amt s h.1.1 (by omega)
+      have h1 := sshiftS_hf_ok d f c amt s h.1.2 (by omega)
+      have h2 := sshiftS_hf_ok b f c amt s h.2 (by omega)
+      simp only [sshiftS, sshift, bind_run, h0]
+      cases sshift c amt a with
+      | none => rfl
+      | some a' =>
+        simp only [bind_run, h1]
+        cases sshift c amt d with
+        | none => rfl
+        | some d' =>
+          simp only [bind_run, h2]
+          cases sshift c amt b <;> rfl
+theorem sshiftDefsS_hf_ok : ∀ (ds : Defs) (f c : Nat) (amt : Int) (s : St), ds.holeFree = true →
+    ds.size < f → sshiftDefsS f c amt ds s = .ok (sshiftDefs c amt ds) s
+  | _, 0, _, _, _, _, hs => by omega
+  | .nil, _+1, _, _, _, _, _ => by simp only [sshiftDefsS, sshiftDefs, pure_run]
+  | .cons x a d b, f+1, c, amt, s, h, hs => by
+      simp only [Defs.holeFree, Bool.and_eq_true] at h
+      simp only [Defs.size] at hs
+      have h0 := sshiftS_hf_ok a f c amt s h.1.1 (by omega)
+      have h1 := sshiftS_hf_ok d f c amt s h.1.2 (by omega)
+      have h2 := sshiftDefsS_hf_ok b f c amt s h.2 (by omega)
+      simp only [sshiftDefsS, sshiftDefs, bind_run, h0]
+      cases sshift c amt a with
+      | none => rfl
+      | some a' =>
+        simp only [bind_run, h1]
+        cases sshift c amt d with
+        | none => rfl
+        | some d' =>
+          simp only [bind_run, h2]
+          cases sshiftDefs c amt b <;> rfl
+end
+
+/-- with enough fuel `sshiftS` answers on a fully solved term -/
+theorem sshiftS_total_aux : ∀ (n : Nat) (s : St),
+    (∀ t z f c amt, zonk n s.store t = some z → z.holeFree = true → n + z.size < f →
+      sshiftS f c amt t s = .ok (sshift c amt z) s) ∧
+    (∀ ds zs f c amt, zonkDefs n s.store ds = some zs → zs.holeFree = true → n + zs.size < f →
+      sshiftDefsS f c amt ds s = .ok (sshiftDefs c amt zs) s) := by
+  intro n s
+  induction n with
+  | zero => constructor <;> (intro t z f c amt h; simp [zonk, zonkDefs] at h)
+  | succ n ih =>
+    obtain ⟨ih1, ih2⟩ := ih
+    constructor
+    · intro t z f c amt hz hf hs
+      cases f with
+      | zero => omega
+      | succ f =>
+      cases t
+      case hole id k =>
+        simp only [zonk] at hz
+        split at hz
+        · next sub hsub =>
+          cases hzs : zonk n s.store sub with
+          | none => simp [hzs] at hz
+          | some zs =>
+            simp only [hzs, Option.some.injEq] at hz
+            subst hz
+            rw [ushift_holeFree] at hf
+            rw [ushift_size] at hs
+            have hv : cellVal s.store id = some sub := cellVal_some.2 hsub
+            have h1 := ih1 sub zs f 0 (k : Int) hzs hf (by omega)
+            rw [sshift_ushift] at h1
+            have h2 := sshiftS_hf_ok (ushift 0 k zs) f c amt s
+              (by rw [ushift_holeFree]; exact hf) (by rw [ushift_size]; omega)
+            simp only [sshiftS]
+            show (match cellVal s.store id with
+              | some sub => _
+              | none => _ : M (Option Tm)) s = _
+            simp only [hv, bind_run, h1, h2]
+        · simp only [Option.some.injEq] at hz; subst hz; cases hf
+      case lam x im d b =>
+        simp only [zonk] at hz
+        cases hzd : zonk n s.store d with
+        | none => simp [hzd] at hz
+        | some zd =>
+          cases hzb : zonk n s.store b with
+          | none => simp [hzd, hzb] at hz
+          | some zb =>
+            simp only [hzd, hzb, Option.some.injEq] at hz
+            subst hz
+            simp only [Tm.holeFree, Bool.and_eq_true] at hf
+            simp only [Tm.size] at hs
+            have h1 := ih1 d zd f c amt hzd hf.1 (by omega)
+            have h2 := ih1 b zb f (c+1) amt hzb hf.2 (by omega)
+            skip
+            simp only [sshiftS, sshift, bind_run, h1]
+            cases sshift c amt zd with
+            | none => rfl
+            | some d' =>
+              simp only [bind_run, h2]
+              cases sshift (c+1) amt zb <;> rfl
+      case pi x im d b =>
+        simp only [zonk] at hz
+        cases hzd : zonk n s.store d with
+        | none => simp [hzd] at hz
+        | some zd =>
+          cases hzb : zonk n s.store b with
+          | none => simp [hzd, hzb] at hz
+          | some zb =>
+            simp only [hzd, hzb, Option.some.injEq] at hz
+            subst hz
+            simp only [Tm.holeFree, Bool.and_eq_true] at hf
+            simp only [Tm.size] at hs
+            have h1 := ih1 d zd f c amt hzd hf.1 (by omega)
+            have h2 := ih1 b zb f (c+1) amt hzb hf.2 (by omega)
+            skip
+            simp only [sshiftS, sshift, bind_run, h1]
+            cases sshift c amt zd with
+            | none => rfl
+            | some d' =>
+              simp only [bind_run, h2]
+              cases sshift (c+1) amt zb <;> rfl
+      case app d b =>
+        simp only [zonk] at hz
+        cases hzd : zonk n s.store d with
+        | none => simp [hzd] at hz
+        | some zd =>
+          cases hzb : zonk n s.store b with
+          | none => simp [hzd, hzb] at hz
+          | some zb =>
+            simp only [hzd, hzb, Option.some.injEq] at hz
+            subst hz
+            simp only [Tm.holeFree, Bool.and_eq_true] at hf
+            simp only [Tm.size] at hs
+            have h1 := ih1 d zd f c amt hzd hf.1 (by omega)
+            have h2 := ih1 b zb f c amt hzb hf.2 (by omega)
+            skip
+            simp only [sshiftS, sshift, bind_run, h1]
+            cases sshift c amt zd with
+            | none => rfl
+            | some d' =>
+              simp only [bind_run, h2]
+              cases sshift c amt zb <;> rfl
+      case bin op d b =>
+        simp only [zonk] at hz
+        cases hzd : zonk n s.store d with
+        | none => simp [hzd] at hz
+        | some zd =>
+          cases hzb : zonk n s.store b with
+          | none => simp [hzd, hzb] at hz
+          | some zb =>
+            simp only [hzd, hzb, Option.some.injEq] at hz
+            subst hz
+            simp only [Tm.holeFree, Bool.and_eq_true] at hf
+            simp only [Tm.size] at hs
+            have h1 := ih1 d zd f c amt hzd hf.1 (by omega)
+            have h2 := ih1 b zb f c amt hzb hf.2 (by omega)
+            skip
+            simp only [sshiftS, sshift, bind_run, h1]
+            cases sshift c amt zd with
+            | none => rfl
+            | some d' =>
+              simp only [bind_run, h2]
+              cases sshift c amt zb <;> rfl
+      case letg ds b =>
+        simp only [zonk] at hz
+        cases hzd : zonkDefs n s.store ds with
+        | none => simp [hzd] at hz
+        | some zd =>
+          cases hzb : zonk n s.store b with
+          | none => simp [hzd, hzb] at hz
+          | some zb =>
+            simp only [hzd, hzb, Option.some.injEq] at hz
+            subst hz
+            simp only [Tm.holeFree, Bool.and_eq_true] at hf
+            simp only [Tm.size] at hs
+            have h1 := ih2 ds zd f (c + ds.len) amt hzd hf.1 (by omega)
+            have h2 := ih1 b zb f (c + ds.len) amt hzb hf.2 (by omega)
+            have hl : zd.len = ds.len := ZkD_len ⟨n, hzd⟩
+            simp only [sshiftS, sshift, bind_run, h1, hl]
+            cases sshiftDefs (c + ds.len) amt zd with
+            | none => rfl
+            | some d' =>
+              simp only [bind_run, h2]
+              cases sshift (c + ds.len) amt zb <;> rfl
+      case neg d =>
+        simp only [zonk] at hz
+        cases hzd : zonk n s.store d with
+        | none => simp [hzd] at hz
+        | some zd =>
+          simp only [hzd, Option.some.injEq] at hz
+          subst hz
+          simp only [Tm.holeFree] at hf
+          simp only [Tm.size] at hs
+          have h1 := ih1 d zd f c amt hzd hf (by omega)
+          simp only [sshiftS, sshift, bind_run, h1]
+          cases sshift c amt zd <;> rfl
+      case ite a d b =>
+        simp only [zonk] at hz
+        cases hza : zonk n s.store a with
+        | none => simp [hza] at hz
+        | some za =>
+          cases hzd : zonk n s.store d with
+          | none => simp [hza, hzd] at hz
+          | some zd =>
+            cases hzb : zonk n s.store b with
+            | none => simp [hza, hzd, hzb] at hz
+            | some zb =>
+              simp only [hza, hzd, hzb, Option.some.injEq] at hz
+              subst hz
+              simp only [Tm.holeFree, Bool.and_eq_true] at hf
+              simp only [Tm.size] at hs
+              have h0 := ih1 a za f c amt hza hf.1.1 (by omega)
+              have h1 := ih1 d zd f c amt hzd hf.1.2 (by omega)
+              have h2 := ih1 b zb f c amt hzb hf.2 (by omega)
+              simp only [sshiftS, sshift, bind_run, h0]
+              cases sshift c amt za with
+              | none => rfl
+              | some a' =>
+                simp only [bind_run, h1]
+                cases sshift c amt zd with
+                | none => rfl
+                | some d' =>
+                  simp only [bind_run, h2]
+                  cases sshift c amt zb <;> rfl
+      case var x i =>
+        simp only [zonk, Option.some.injEq] at hz; subst hz
+        simp only [sshiftS, sshift]
+        repeat' split
+        all_goals rfl
+      all_goals
+        simp only [zonk, Option.some.injEq] at hz; subst hz
+        simp only [sshiftS, sshift, pure_run]
+    · intro ds zs f c amt hz hf hs
+      cases f with
+      | zero => omega
+      | succ f =>
+      cases ds
+      case nil =>
+        simp only [zonkDefs, Option.some.injEq] at hz; subst hz
+        simp only [sshiftDefsS, sshiftDefs, pure_run]
+      case cons x a d b =>
+        simp only [zonkDefs] at hz
+        cases hza : zonk n s.store a with
+        | none => simp [hza] at hz
+        | some za =>
+          cases hzd : zonk n s.store d with
+          | none => simp [hza, hzd] at hz
+          | some zd =>
+            cases hzb : zonkDefs n s.store b with
+            | none => simp [hza, hzd, hzb] at hz
+            | some zb =>
+              simp only [hza, hzd, hzb, Option.some.injEq] at hz
+              subst hz
+              simp only [Defs.holeFree, Bool.and_eq_true] at hf
+              simp only [Defs.size] at hs
+              have h0 := ih1 a za f c amt hza hf.1.1 (by omega)
+              have h1 := ih1 d zd f c amt hzd hf.1.2 (by omega)
+              have h2 := ih2 b zb f c amt hzb hf.2 (by omega)
+              simp only [sshiftDefsS, sshiftDefs, bind_run, h0]
+              cases sshift c amt za with
+              | none => rfl
+              | some a' =>
+                simp only [bind_run, h1]
+                cases sshift c amt zd with
+                | none => rfl
+                | some d' =>
+                  simp only [bind_run, h2]
+                  cases sshiftDefs c amt zb <;> rfl
+
+theorem sshiftS_total {n f c : Nat} {amt : Int} {t z : Tm} {s : St}
+    (hz : zonk n s.store t = some z) (hf : z.holeFree = true) (hfu : n + z.size < f) :
+    sshiftS f c amt t s = .ok (sshift c amt z) s :=
+  (sshiftS_total_aux n s).1 t z f c amt hz hf hfu
+
+theorem ushiftS_total {n f c a : Nat} {t z : Tm} {s : St}
+    (hz : zonk n s.store t = some z) (hf : z.holeFree = true) (hfu : n + z.size < f) :
+    ushiftS f c a t s = .ok (ushift c a z) s := by
+  unfold ushiftS
+  simp only [bind_run, sshiftS_total hz hf hfu, sshift_ushift, pure_run]
+
+/-! ## Observing a run (for `decide`d examples) -/
+
+/-- the value and the final store of a successful run -/
+def runOut {α} : R α → Option (α × List (Option Tm))
+  | .ok a s => some (a, s.store)
+  | _ => none
+
 end StoreTransparent
